@@ -365,6 +365,19 @@ func (c cfgSub) SetContext(ctx context) {
 	}
 }
 
+// reifyElem is v.reify for a setting of an object or a list: an error names the
+// setting it comes from, not the object that setting is part of.
+func reifyElem(v value, opts *options) (interface{}, error) {
+	r, err := v.reify(opts)
+	if err != nil {
+		if e, ok := err.(Error); !ok || e.Path() == "" {
+			ctx := v.Context()
+			err = raisePathErr(err, v.meta(), "", ctx.path("."))
+		}
+	}
+	return r, err
+}
+
 func (c cfgSub) reify(opts *options) (interface{}, error) {
 	parentFields := opts.activeFields
 	defer func() { opts.activeFields = parentFields }()
@@ -383,7 +396,7 @@ func (c cfgSub) reify(opts *options) (interface{}, error) {
 		for k, v := range fields {
 			opts.activeFields = newFieldSet(parentFields)
 			var err error
-			if m[k], err = v.reify(opts); err != nil {
+			if m[k], err = reifyElem(v, opts); err != nil {
 				return nil, err
 			}
 		}
@@ -393,7 +406,7 @@ func (c cfgSub) reify(opts *options) (interface{}, error) {
 		for i, v := range arr {
 			opts.activeFields = newFieldSet(parentFields)
 			var err error
-			if m[i], err = v.reify(opts); err != nil {
+			if m[i], err = reifyElem(v, opts); err != nil {
 				return nil, err
 			}
 		}
@@ -403,14 +416,14 @@ func (c cfgSub) reify(opts *options) (interface{}, error) {
 		for k, v := range fields {
 			opts.activeFields = newFieldSet(parentFields)
 			var err error
-			if m[k], err = v.reify(opts); err != nil {
+			if m[k], err = reifyElem(v, opts); err != nil {
 				return nil, err
 			}
 		}
 		for i, v := range arr {
 			opts.activeFields = newFieldSet(parentFields)
 			var err error
-			m[fmt.Sprintf("%d", i)], err = v.reify(opts)
+			m[fmt.Sprintf("%d", i)], err = reifyElem(v, opts)
 			if err != nil {
 				return nil, err
 			}
